@@ -112,12 +112,15 @@ def coordOf (j : Json) : Except String Coord := do
   if t == "dec" then
     return .dec (← decOf (← field j "d")) (← cunitOf (← fStr j "u"))
   let neg ← fBool j "neg"
+  let plus ← jBool (fieldD j "plus" (.bool false))
   let a ← jNat (← field j "a")
   let b ← jNat (← field j "b")
+  if t == "hm" then return .hm neg a b plus
+  if t == "dm" then return .dm neg a b plus
   let s ← decOf (← field j "s")
   match t with
-  | "hms" => pure (.hms neg a b s) | "dms" => pure (.dms neg a b s)
-  | "colon" => pure (.colon neg a b s) | "dots" => pure (.dots neg a b s)
+  | "hms" => pure (.hms neg a b s plus) | "dms" => pure (.dms neg a b s plus)
+  | "colon" => pure (.colon neg a b s plus) | "dots" => pure (.dots neg a b s plus)
   | _ => .error s!"bad coordinate notation {t}"
 
 def ptOf (j : Json) : Except String Pt := do
